@@ -19,7 +19,8 @@ Surface AST (plain Python, printed both as Rust/Ascent text and as the s-express
   arg   = {"t":"v","n":var} | {"t":"w"} | {"t":"e","s":text} | {"t":"p","s":pattern text,"seen":[var],"hid":[var]}
   hitem = {"t":"h","rel","args":[text]} | {"t":"m","name","args":[arg]}
 `seen` are the variables `pattern_get_vars` (syn_utils.rs) reports for the pattern, `hid` the variables the pattern binds
-that `pattern_get_vars` does not report (bound under a parenthesised sub-pattern: `Pat::Paren` has no arm there).
+that `pattern_get_vars` does not report (none of the generated forms since fix f47e99d added the `Pat::Paren` arm; before it:
+variables under a parenthesised sub-pattern — the field stays in the summary for pattern forms no syntactic analysis can see).
 Variables inside macro bodies that refer to a parameter are written `$p`.
 
 Typing discipline (so that the well-formed texts compile under rustc): every column is `i32` except an optional last
@@ -702,7 +703,7 @@ def with_extra(q):
 
 def rebinder(form, v, paren=False):
     pv = f"({v})" if paren else v
-    seen, hid = ([], [v]) if paren else ([v], [])
+    seen, hid = [v], []      # since fix f47e99d `pattern_get_vars` descends into Pat::Paren (finding FM1)
     if form == "let": return B("let", pv, seen, "7", hid)
     if form == "iflet": return B("iflet", f"Some({pv})", seen, "Some(7)", hid)
     if form == "for": return B("for", pv, seen, "0..2", hid)
